@@ -66,8 +66,6 @@ inductive Label
   | quirks
   deriving DecidableEq, Repr
 
-def str' (s : String) : List Nat := s.toList.map Char.toNat
-
 /-- One arm of the type switch in `New`'s loop; `none` = `break outer`. -/
 def collectEv (o : Opts) (c : Caps) (tid aid : List Nat) : Event → Option (Caps × List Nat × List Nat)
   | .internal .primaryDeviceAttribute => none
@@ -78,8 +76,8 @@ def collectEv (o : Opts) (c : Caps) (tid aid : List Nat) : Event → Option (Cap
 
 /-- `applyQuirks()` (quirks.go), the parts that touch `vx.caps`. -/
 def applyQuirks (o : Opts) (tid : List Nat) (c : Caps) : Caps :=
-  let c := if isPrefix (str' "kitty") tid then { c with noZWJ := true }
-           else if tid == str' "tmux 3.4" then { c with unicodeCore := true } else c
+  let c := if isPrefix (VaxisModel.Spec.Startup.ascii "kitty") tid then { c with noZWJ := true }
+           else if tid == VaxisModel.Spec.Startup.ascii "tmux 3.4" then { c with unicodeCore := true } else c
   let c := if o.forceWcwidth then { c with unicodeCore := false, explicitWidth := false } else c
   let c := if o.forceUnicode then { c with unicodeCore := true } else c
   let c := if o.forceNoZWJ then { c with noZWJ := true, explicitWidth := false } else c
